@@ -31,6 +31,10 @@ type c19Op struct {
 	// Reuse: the read passes the history's ONE long-lived *LookupOptions value to the wrapper,
 	// its fields set in place (a caller's paging loop does `lo.Offset++` on one value)
 	Reuse bool `json:"reuse,omitempty"`
+	// CancelAfter > 0 (op "cread"): the read goes through the wrapper only, with a context that
+	// is cancelled once about that many elements were delivered; nothing is required of it, but
+	// the reads that follow must still agree with the wrapped store
+	CancelAfter int `json:"cancel_after,omitempty"`
 }
 
 type c19Case struct {
@@ -124,6 +128,21 @@ func genC19(t *rapid.T) c19Case {
 		}
 		c.Ops = append(c.Ops, op)
 	}
+	// a tail of reads only: one read whose context is cancelled part way, then the same read
+	// again (and others). No write follows: on cancellation the wrapper abandons the lookup of
+	// the wrapped store, which then stays blocked holding the graph's read lock (observed on the
+	// unchanged tree; cancellation is outside the statement, only the later reads are checked).
+	if rapid.IntRange(0, 5).Draw(t, "cancel-tail") == 0 {
+		x := rapid.SampledFrom(qs).Draw(t, "cq")
+		x.o.Max, x.o.Offset = 0, 0
+		g, h := rapid.IntRange(0, len(c19Names)-1).Draw(t, "cg"), rapid.IntRange(0, 5).Draw(t, "ch")
+		c.Ops = append(c.Ops, c19Op{Op: "cread", G: g, H: h, Call: x.c, Opt: x.o, CancelAfter: rapid.IntRange(1, 3).Draw(t, "cancel-after")})
+		c.Ops = append(c.Ops, c19Op{Op: "read", G: g, H: h, Call: x.c, Opt: x.o})
+		for i, n := 0, rapid.IntRange(0, 2).Draw(t, "ctail"); i < n; i++ {
+			y := rapid.SampledFrom(qs).Draw(t, "cq2")
+			c.Ops = append(c.Ops, c19Op{Op: "read", G: g, H: rapid.IntRange(0, 5).Draw(t, "ch2"), Call: y.c, Opt: y.o})
+		}
+	}
 	return c
 }
 
@@ -164,7 +183,7 @@ func checkC19(ctx *pbt.Ctx, c c19Case) error {
 	}
 	W := memoization.New(inner)
 	sharedLO := &storage.LookupOptions{}
-	reusedReads := 0
+	reusedReads, cancelled := 0, 0
 	seenRead := map[string]bool{}    // (generation, call, opt) read before (cache candidates)
 	seenCallOpt := map[string]bool{} // call read with some option before
 	wroteSince := map[int]bool{}
@@ -242,6 +261,16 @@ func checkC19(ctx *pbt.Ctx, c c19Case) error {
 			if wb != pb || (werr == nil) != (perr == nil) {
 				return fmt.Errorf("step %d Exist(%s) through handle #%d of %q: wrapper %v (%v), wrapped store %v (%v)", i, model.KeyTriple(tr), hi, h.name, wb, werr, pb, perr)
 			}
+		case "cread":
+			if len(handles) == 0 {
+				continue
+			}
+			hi := op.H % len(handles)
+			h := handles[hi]
+			cancelled++
+			if !callLookupCancelled(h.w, op.Call, op.Opt.build(), op.CancelAfter) {
+				return fmt.Errorf("step %d %s through handle #%d of %q: the lookup did not return within 20 s after its context was cancelled", i, describeCall(op.Call), hi, h.name)
+			}
 		case "read":
 			if len(handles) == 0 {
 				continue
@@ -296,6 +325,9 @@ func checkC19(ctx *pbt.Ctx, c c19Case) error {
 	}
 	if reusedReads >= 2 {
 		ctx.Label("options-value-reused")
+	}
+	if cancelled > 0 {
+		ctx.Label("read-after-cancelled-read")
 	}
 	if hitAfterWrite || nearKey {
 		ctx.Nontrivial()
